@@ -518,6 +518,7 @@ class BaseSection(base.Sectionable):
         :param obj: Section or Property object.
         """
         if isinstance(obj, BaseSection):
+            self._validate_no_cycle(obj)
             old_parent = obj._parent
             self._sections.append(obj)
             # If required remove the object from its previous parent,
@@ -578,6 +579,8 @@ class BaseSection(base.Sectionable):
             if obj.name in self.sections:
                 raise ValueError("odml.Section.insert: "
                                  "Section with name '%s' already exists." % obj.name)
+
+            self._validate_no_cycle(obj)
 
             # If required remove the object from its previous parent first,
             # an object must never be a child of two parents.
